@@ -166,6 +166,98 @@ mk('C05-update-forgets-protected-weight', 'policy.go',
 		if nodeWeight <= p.maximum {''',
 '''	case n.InMainProtected():
 		if nodeWeight <= p.maximum {''')
+mk('C15-range-skips-overflow-buckets', 'internal/hashmap/map.go',
+'''			if next := b.next.Load(); next == nil {
+				rootb.mu.Unlock()
+				break
+			} else {
+				b = next
+			}
+		}
+		// Call the function for all copied nodes.''',
+'''			rootb.mu.Unlock()
+			break
+		}
+		// Call the function for all copied nodes.''')
+mk('C15-size-counts-updates', 'internal/hashmap/map.go',
+'''						if oldNode.AsPointer() != newNode.AsPointer() {
+							atomic.StorePointer(&b.nodes[idx], newNode.AsPointer())
+						}
+						rootb.mu.Unlock()
+						return newNode''',
+'''						if oldNode.AsPointer() != newNode.AsPointer() {
+							atomic.StorePointer(&b.nodes[idx], newNode.AsPointer())
+							table.addSize(bidx, 1)
+						}
+						rootb.mu.Unlock()
+						return newNode''')
+mk('C03-iterators-ignore-expiry', 'cache_impl.go',
+'''			if !n.IsAlive() || n.HasExpired(nowNano) {
+				c.scheduleDrainBuffers()
+				return true
+			}''',
+'''			if !n.IsAlive() || n.HasExpired(nowNano-1) {
+				c.scheduleDrainBuffers()
+				return true
+			}''')
+mk('C17-ring-off-by-one-full', 'internal/lossy/ring.go',
+'''	if size >= bufferSize {
+		return Full
+	}''',
+'''	if size > bufferSize {
+		return Full
+	}''')
+mk('C16-refuse-one-early', 'internal/deque/queue/mpsc.go',
+'''	case m.availableInQueue(pIndex, cIndex) <= 0:''',
+'''	case m.availableInQueue(pIndex, cIndex) <= 2:''')
+mk('C12-update-keeps-old-deadline', 'cache_impl.go',
+'''		expiresAfter = c.expiryCalculator.ExpireAfterUpdate(entry, old.Value())
+	}''',
+'''		expiresAfter = c.expiryCalculator.ExpireAfterUpdate(entry, old.Value())
+		if expiresAfter > currentDuration {
+			expiresAfter = currentDuration
+		}
+	}''')
+mk('C19-save-skips-refresh-time', 'persistence.go',
+'''		if c.cache.withRefresh && entry.RefreshableAtNano != unreachableRefreshableAt {''',
+'''		if c.cache.withRefresh && entry.RefreshableAtNano != unreachableRefreshableAt && entry.RefreshableAtNano > nowNano {''')
+mk('C20-miss-not-counted-for-expired', 'cache_impl.go',
+'''	if n.HasExpired(nowNano) {
+		c.stats.RecordMisses(1)
+		c.scheduleDrainBuffers()
+		return nil
+	}''',
+'''	if n.HasExpired(nowNano) {
+		c.scheduleDrainBuffers()
+		return nil
+	}''')
+mk('C11-failed-reload-replaces', 'cache_impl.go',
+'''		if cl.err != nil {
+			if cl.isRefresh && oldNode != nil {
+				c.calcRefreshableAt(oldNode, oldNode, cl, nowNano)
+			}
+			return oldNode
+		}''',
+'''		if cl.err != nil && !(cl.isRefresh && isCorrectCall) {
+			return oldNode
+		}''')
+mk('C13-wrong-level', 'internal/expiration/variable.go',
+'''		if duration < spans[i+1] {
+			ticks := expiration >> shift[i]''',
+'''		if duration < spans[i+1] {
+			ticks := expiration >> shift[0]''')
+mk('C05-wheel-keeps-old-on-update', 'cache_impl.go',
+'''		if c.withExpiration {
+			c.expirationPolicy.Delete(old)
+			if n.IsAlive() {
+				c.expirationPolicy.Add(n)
+			}
+		}''',
+'''		if c.withExpiration {
+			if n.IsAlive() {
+				c.expirationPolicy.Add(n)
+			}
+		}''')
 os.chdir("/")
 shutil.rmtree(D)
 print("not generated:", bad)
